@@ -105,8 +105,9 @@ func (prog *Prog) buildProg(as abi.As, arg *abi.X64Argument) (inst *Prog, err er
 		default:
 			panic("unreachable")
 		}
-		prog.From = src
-		prog.To = dst
+		// Plan 9 CMP keeps the Intel operand order: CMPQ a, b compares a with b
+		prog.From = dst
+		prog.To = src
 
 	case ACMOVNE: // cmovne
 		// cmovne r10d, r11d
